@@ -8,6 +8,7 @@ sequence (no bound on length), over exact rationals (ints and dyadic floats alik
 import EdzedModel.Counter
 import EdzedProofs.Counter
 import EdzedModel.Gen.Constants
+import EdzedModel.Gen.Translated
 
 namespace Edzed.Counter
 
@@ -122,3 +123,14 @@ example : ∃ c : Cfg, ∃ m : Num, c.mod = some m ∧ 0 < m.q ∧
   ⟨⟨some ⟨7, .int⟩, ⟨3, .int⟩⟩, ⟨7, .int⟩, rfl, by decide +kernel, by decide +kernel⟩
 
 end Edzed.Counter
+
+/-! ### tie to the source by translation (tools/py2lean.py regenerates `Gen.Tr.counterSetmod` from `Counter._setmod`) -/
+namespace Edzed.TrTie
+
+/-- the model's reduction IS the translated value computation of `Counter._setmod` -/
+theorem translated_setmod_is_model (c : Counter.Cfg) (v : Counter.Num) :
+    Gen.Tr.counterSetmod (c.mod.map (·.q)) v.q = (Counter.reduce c v).q := by
+  unfold Gen.Tr.counterSetmod Counter.reduce
+  cases c.mod <;> rfl
+
+end Edzed.TrTie
